@@ -212,7 +212,9 @@ type ConnCtl struct {
 	// BeforeWrite is called (outside the lock) before each Write after the HTTP upgrade
 	// response; it may block (to force interleavings) and may return an error to inject.
 	BeforeWrite func(gid uint64, p []byte) error
-	Log         []ConnEvent
+	// AfterWrite is called after the underlying Write returned.
+	AfterWrite func(gid uint64, p []byte)
+	Log        []ConnEvent
 	upgraded    map[net.Conn]bool
 }
 
@@ -243,8 +245,13 @@ func (c *schedConn) Write(p []byte) (int, error) {
 	}
 	ctl.mu.Lock()
 	ctl.Log = append(ctl.Log, ConnEvent{Gid: gid, Bytes: append([]byte(nil), p...)})
+	aw := ctl.AfterWrite
 	ctl.mu.Unlock()
-	return c.Conn.Write(p)
+	n, err := c.Conn.Write(p)
+	if aw != nil {
+		aw(gid, p)
+	}
+	return n, err
 }
 
 func (c *schedConn) Close() error {
